@@ -353,3 +353,85 @@ class Pop(_Mutator):
     b = outcome(ref.pop, m['index'])
     bad = a != b or list(l) != ref
     return dict(outcome='reproduced' if bad else 'not-reproduced', detail=f'{a} {list(l)!r} vs {b} {ref!r}')
+
+
+# ---------------------------------------------------------------------------
+# pg.Dict.setdefault against dict.setdefault: a key that is present keeps its
+# value -- whatever that value is (None, 0, '' and other falsy values are values)
+# -- and is returned; a key that is absent (or holds the missing-value marker,
+# the documented extension) gets the default through the ordinary item
+# assignment, exactly once, and the default is returned.
+
+SD2 = 'pyglove.core.symbolic.dict'
+
+
+@register
+class DictSetDefault(Contract):
+  prop = 'C02'
+  target = f'{SD2}:Dict.setdefault'
+  STORED = {'none': None, 'zero': 0, 'empty-str': '', 'false': False, 'int': 5,
+            'marker': pg.MISSING_VALUE, 'typed-marker': pg.typing.MissingValue(pg.typing.Int())}
+  variants = tuple(('present', k) for k in STORED) + (('absent', '-'),)
+
+  def label(self):
+    return f'Dict.setdefault[{self.variant[0]}:{self.variant[1]}]'
+
+  def inputs(self, b):
+    self._default = b.choice('default_kind', [None, 7, b.any('default')])
+    s = SObj(pg.Dict, {'_value_spec': None}, name='self')
+    self._self = s
+    return dict(self=s, key='k', default=self._default), {}
+
+  def setup_policy(self, policy):
+    me = self
+    present, kind = self.variant
+
+    def contains(interp, args, kwargs, frame):
+      return present == 'present'
+    policy.handlers[('cmethod', dict, '__contains__')] = contains
+    policy.contracts[f'{SD2}:Dict.__contains__'] = lambda interp, frame, args, kwargs: present == 'present'
+
+    def getattr_(interp, frame, args, kwargs):
+      interp.path.event('read', 'sym_getattr', [interp.resolve(a) for a in args])
+      if present != 'present':
+        raise I.PyRaise(ExcVal(KeyError, ('k',)))
+      return me.STORED[kind]
+    for q in ('pyglove.core.symbolic.base:Symbolic.sym_getattr', f'{SD2}:Dict._sym_getattr', f'{SD2}:Dict.sym_getattr'):
+      policy.contracts[q] = getattr_
+
+    def setitem(interp, frame, args, kwargs):
+      interp.path.event('store', 'Dict.__setitem__', [interp.resolve(a) for a in args])
+      return None
+    policy.contracts[f'{SD2}:Dict.__setitem__'] = setitem
+
+  def trace_present_value_kept_else_default_stored_once(self, events, outcome, interp, env):
+    if outcome[0] != 'return':
+      return False
+    present, kind = self.variant
+    stores = [e for e in events if e.kind == 'store']
+    r = interp.resolve(outcome[1])
+    default = interp.resolve(self._default)
+    keeps = present == 'present' and kind not in ('marker', 'typed-marker')
+    if keeps:
+      stored = self.STORED[kind]
+      return not stores and (r is stored or (type(r) is type(stored) and r == stored))
+    return (len(stores) == 1 and stores[0].data[-2] == 'k' and stores[0].data[-1] is default
+            and stores[0].data[0] is self._self and r is default)
+
+  def small_models(self):
+    from pyvc.contracts import Model
+    yield Model({}, {})
+
+  def replay(self, obligation, m):
+    bad = []
+    for name, stored in self.STORED.items():
+      if name in ('marker', 'typed-marker'):
+        continue
+      d, ref = pg.Dict(k=stored, z=1), dict(k=stored, z=1)
+      got, want = d.setdefault('k', 5), ref.setdefault('k', 5)
+      if not (got == want and type(got) is type(want) and dict(d.sym_items()) == ref):
+        bad.append(f'pg.Dict(k={stored!r}).setdefault("k", 5) -> {got!r}, contents {dict(d.sym_items())!r}; dict gives {want!r}, {ref!r}')
+    d, ref = pg.Dict(z=1), dict(z=1)
+    if d.setdefault('k', 5) != ref.setdefault('k', 5) or dict(d.sym_items()) != ref:
+      bad.append(f'absent key: contents {dict(d.sym_items())!r}, dict gives {ref!r}')
+    return dict(outcome='reproduced' if bad else 'not-reproduced', detail='; '.join(bad) or 'as dict.setdefault')
